@@ -47,11 +47,13 @@ Definition owned (name : bytes) (explicit : option (list bytes)) (has_handler : 
 Definition owned_res (c : config) : list bytes := owned (c_name c) (c_res c) (c_has_res c).
 Definition owned_acc (c : config) : list bytes := owned (c_name c) (c_acc c) (c_has_acc c).
 
-(* the service's two ownership fields; setDefaultOwnership writes them back *)
+(* the owned patterns resolved by setDefaultOwnership (ownedResources / ownedAccess): serve() resolves
+   them on each Serve from the configured lists and the handlers registered at that time; the
+   configured lists (resetResources / resetAccess) are not written *)
 Record ownership := Own { o_res : option (list bytes); o_acc : option (list bytes) }.
-Definition initial_ownership (c : config) : ownership := Own (c_res c) (c_acc c).
+Definition initial_ownership (c : config) : ownership := Own None None.
 Definition set_default_ownership (c : config) (o : ownership) : ownership :=
-  Own (Some (owned (c_name c) (o_res o) (c_has_res c))) (Some (owned (c_name c) (o_acc o) (c_has_acc c))).
+  Own (Some (owned (c_name c) (c_res c) (c_has_res c))) (Some (owned (c_name c) (c_acc c) (c_has_acc c))).
 Definition olist (l : option (list bytes)) : list bytes := match l with Some x => x | None => [] end.
 
 (* pattern[len(pattern)-1] == '>' *)
@@ -109,9 +111,9 @@ Definition reset_event (res acc : list bytes) : option (option (list bytes) * op
 
 (* ResetAll (also what serve calls after subscribing and what handleReconnect calls) *)
 Definition reset_all (c : config) (o : ownership) : ownership * option (option (list bytes) * option (list bytes)) :=
-  let o' := set_default_ownership c o in (o', reset_event (olist (o_res o')) (olist (o_acc o'))).
+  (o, reset_event (olist (o_res o)) (olist (o_acc o))).
 
-(* ownership fields after subscribe() *)
+(* owned patterns while serving: resolved by serve() before subscribing *)
 Definition served_ownership (c : config) : ownership := set_default_ownership c (initial_ownership c).
 
 (* the payload of the n-th ResetAll after Serve (0 = the one sent on start) *)
